@@ -269,7 +269,8 @@ impl Iterator for Iter<'_> {
 
     #[inline(always)]
     fn size_hint(&self) -> (usize, Option<usize>) {
-        (self.seq.len(), Some(self.seq.len()))
+        let remaining = self.seq.len() - self.pos;
+        (remaining, Some(remaining))
     }
 }
 
